@@ -1,6 +1,8 @@
 """Confirm a seeded change (tests same, demo fails with / passes without) in a
 fresh scratch worktree and run every claimed check against it."""
 import json, os, subprocess, sys, shutil, tempfile
+# the checker tree to run (a frozen copy while the live one is being edited)
+HOME = os.environ.get('TTSA_HOME', '/verif')
 sid = sys.argv[1]
 src = sys.argv[2] if len(sys.argv) > 2 else '/tmp/seeds/' + sid
 wt = tempfile.mkdtemp(prefix='seedwt-')
@@ -23,11 +25,11 @@ try:
     if '--notest' not in sys.argv:
         rc, out = sh('/venv/bin/python -m pytest -q -p no:cacheprovider --timeout=900 test 2>&1 | tail -3', cwd=wt)
         res['tests'] = out.strip().splitlines()[-1] if out.strip() else ''
-    man = json.load(open('/verif/MANIFEST.json'))
+    man = json.load(open(HOME + '/MANIFEST.json'))
     fired = {}
     for c in man['checks']:
         pid = c['property_id']
-        rc, out = sh('/venv/bin/python -m ttsa check %s --repo %s --no-evidence' % (pid, wt), cwd='/verif', timeout=600)
+        rc, out = sh('/venv/bin/python -m ttsa check %s --repo %s --no-evidence' % (pid, wt), cwd=HOME, timeout=600)
         if rc != 0:
             lines = [l for l in out.splitlines() if '[' in l and ']' in l and '::' in l or 'ANALYSIS-ERROR' in l]
             fired[pid] = {'exit': rc, 'report': [l[:260] for l in lines[:3]]}
